@@ -395,6 +395,13 @@ def w_insertion_discipline(ctx) -> None:
             else:
                 ctx.violation("W1", C.stmt_of(n), f"a rule is filed as a two-way equivalence without the `{two_way}` test: the default database "
                               "then hands back a one-way strategy from its equivalence table and the memory-saving one cannot recompute it")
+    # what is filed depends on the rule that arrives, not on what the stores already hold: a key first seen with a one-way
+    # rule and then with a two-way one is upgraded (edge in both directions, classes merged)
+    for r in C.returns_of(f):
+        dep = [t for t, _p in C.guard_texts(f, r) if "self." in t and "_clean_labels" not in t]
+        if dep:
+            ctx.violation("W1", r, f"RuleDBBase.add gives up under `{dep[0][:60]}`, a test on what the database already holds: a key recorded first by a one-way rule is "
+                          "then never upgraded when the two-way rule for the same classes arrives, so the two classes are never merged")
     if n_eq < 2:
         ctx.violation("W1", f, "RuleDBBase.add no longer files two-way single-child rules in the equivalence store", construct="RuleDBBase.add equivalence branch")
     # recomputation applies the same predicate
@@ -554,3 +561,84 @@ def t6b_flat_keys_are_elements(ctx) -> None:
                                   "added to / removed from the set of keys, the key itself is untouched")
     if n < 2:
         ctx.floor("T6", 99)
+
+
+def w5_replay_is_exhaustive(ctx) -> None:
+    """The memory-saving tables keep every key they are given and find its strategy again by
+    replaying the whole pack on every label of the key.
+    (a) __setitem__ stores unconditionally (the default database, a dict, does);
+    (b) the replay skips a (label, strategy) pair only because the strategy does not apply or
+        the rule is of the wrong kind for this table -- never because of what was seen
+        earlier in the replay: the pack is not iterated in the order the searcher applied it;
+    (c) every exception that reading `rule.children` can raise to say "does not apply" is
+        caught around that read."""
+    P = ctx.P
+    # (a)
+    sm = P.need_method("RecomputingDict", "__setitem__", own=True)
+    ctx.analysed(sm)
+    adds = [c for c in walk_local(sm.node) if isinstance(c, ast.Call) and isinstance(c.func, ast.Attribute) and is_self_attr(c.func.value, "rules") and c.func.attr == "add"]
+    if not adds:
+        raise AnalysisError("W5: RecomputingDict.__setitem__ no longer adds the key to self.rules")
+    for a in adds:
+        gs = [(norm(e), p_) for e, p_ in C.flatten_guards(C.guards(sm.node, a)) if not isinstance(getattr(e, "_parent", None), ast.Assert)]
+        if gs:
+            ctx.violation("W5", a, f"RecomputingDict.__setitem__ keeps a key only under {sorted(t for t, _ in gs)[:2]}: RuleDBBase.add files the rule in both kinds of database, "
+                          "but only the default one (a dict) then has it -- the stored rules, membership and counts of the two databases differ")
+        else:
+            ctx.ok("W5", "RecomputingDict.__setitem__ keeps every key it is given")
+    # (b)
+    gi = P.need_method("RecomputingDict", "__getitem__", own=True)
+    g = gi.node
+    ctx.analysed(gi)
+    rn = _recomputed_rule_name(g)
+    loops = [l for l in walk_local(g) if isinstance(l, ast.For)]
+    replay = [l for l in loops if "self.pack" in norm(D.expanded(g, l.iter))]
+    if not replay:
+        raise AnalysisError("W5: RecomputingDict.__getitem__ no longer replays self.pack")
+    rl = replay[0]
+    n_skip = 0
+    for x in walk_local(rl):
+        if not isinstance(x, (ast.Continue, ast.Break)):
+            continue
+        n_skip += 1
+        in_handler = any(isinstance(p_, ast.ExceptHandler) for p_ in _ancestors_of(x, rl))
+        gs = [(norm(e), p_) for e, p_ in C.flatten_guards(C.guards(g, x, within=rl))]
+        kind_only = bool(gs) and all(("only_equiv" in t) or (".is_two_way()" in t) or ("isinstance(" in t) or t.startswith(f"({rn}.") or " == key" in t or "!= key" in t for t, _ in gs)
+        if in_handler or kind_only:
+            ctx.ok("W5", f"the replay moves on ({type(x).__name__.lower()}) only when a strategy does not apply or the rule is of the other kind")
+        else:
+            ctx.violation("W5", x, f"the replay skips strategies under {sorted(t for t, _ in gs)[:2] or 'no condition'}: the pack is replayed in its own order, not in the order the "
+                          "searcher applied it, so a stored rule made by a skipped strategy can no longer be recomputed (RuntimeError where the default database answers)")
+    # (c)
+    ch = P.find_method(P.need_class("AbstractRule"), "children")
+    if ch is None:
+        raise AnalysisError("W5: AbstractRule.children not found")
+    raised = sorted({norm(r.exc.func if isinstance(r.exc, ast.Call) else r.exc) for r in walk_local(ch.node) if isinstance(r, ast.Raise) and r.exc is not None})
+    reads = [a for a in walk_local(rl) if isinstance(a, ast.Attribute) and a.attr == "children" and isinstance(a.ctx, ast.Load)]
+    if not reads:
+        raise AnalysisError("W5: the replay no longer reads rule.children")
+    for exc in raised:
+        k = P.classes.get(exc)
+        names = {c.name for c in P.mro(k)} if k is not None else {exc}
+        names |= {"Exception", "BaseException", "*"}
+        for a in reads:
+            caught = set()
+            for _t, _h, hn in C.handlers_around(g, a):
+                caught |= {n_.split(".")[-1] for n_ in hn}
+            if caught & names:
+                ctx.ok("W5", f"`{norm(a)}` is read under a handler for {exc}, which AbstractRule.children raises when the rule does not apply")
+            else:
+                ctx.violation("W5", a, f"`{norm(a)}` is read in the replay without a handler for {exc} (handlers: {sorted(caught) or 'none'}); AbstractRule.children raises it for a "
+                              "factory-made rule that does not apply, so the first such rule ends the replay with an exception before the strategy that made the stored "
+                              "rule is reached")
+    if not raised:
+        ctx.floor("W5", 99)
+
+
+def _ancestors_of(node: ast.AST, stop: ast.AST) -> List[ast.AST]:
+    out = []
+    p_ = parent(node)
+    while p_ is not None and p_ is not stop:
+        out.append(p_)
+        p_ = parent(p_)
+    return out
